@@ -72,7 +72,38 @@ pub fn observe_after(r: &mut StdRng, hay: &[u8], needle: &[u8], prior: &[Vec<u8>
     json!({"simd": wirefilter::verif::simd_active(), "runs": runs, "src": src})
 }
 
+/// Structured long haystacks: lengths just above a power of two (1 KiB .. 64 KiB) with the pattern at the very end,
+/// straddling the power of two, or nearly there - the places where a search that is split into blocks, windows or
+/// a fast prefix plus a fallback has its seams.  96 cases, the first 96 events of every trace.
+pub const LONG_CASES: u64 = 96;
+fn long_case(k: u64) -> (Vec<u8>, Vec<u8>) {
+    let k = k as usize;
+    let l = [1024usize, 4096, 16384, 65536][k % 4];
+    let n = [2usize, 16, 17, 33][(k / 4) % 4];
+    let d = if (k / 16) % 2 == 0 { 1 } else { n - 1 };
+    let shape = (k / 32) % 3;
+    let needle: Vec<u8> = (0..n).map(|i| b'a' + (i % 23) as u8).collect();
+    let mut hay = vec![b'-'; l + d];
+    let off = match shape {
+        0 => hay.len() - n, // at the very end, reaching past the power of two
+        1 => l - 1,         // begins on the last byte before it (may not fit: then the haystack ends inside the pattern)
+        _ => hay.len() - n,
+    };
+    let fit = n.min(hay.len() - off);
+    hay[off..off + fit].copy_from_slice(&needle[..fit]);
+    if shape == 2 {
+        let last = hay.len() - 1;
+        hay[last] = b'#'; // near miss: last byte differs
+    }
+    (hay, needle)
+}
+
 pub fn gen_event(r: &mut StdRng, id: u64) -> Value {
+    if id < LONG_CASES {
+        let (hay, needle) = long_case(id);
+        let o = observe(r, &hay, &needle);
+        return json!({"ev": "contains", "id": id, "hay": hay, "needle": needle, "obs": o});
+    }
     let alpha: Vec<u8> = match r.random_range(0..4) {
         0 => b"ab".to_vec(),
         1 => b"abc".to_vec(),
